@@ -335,3 +335,34 @@ PROPS["C02"] = Prop(
     trusted_base=VERUS_TRUST + COMMON_TRUST,
     not_covered=["lock discipline", "interpolation slot offsets", "stack overflow", "builtins::fns::render", "lexer string/int paths"],
 )
+
+
+# ---------------------------------------------------------------------------------------------
+# Evaluator leaf contracts (Engine K): comparisons, op-assign helper, equality, range reads, pairs
+# ---------------------------------------------------------------------------------------------
+import props_eval_leaf
+
+PROPS["C06"]._k = C06_UNITS + props_eval_leaf.UNITS["C06"]
+PROPS["C11"]._k = props_eval_leaf.UNITS["C11"]
+PROPS["C11"]._kt = 400
+PROPS["C07"]._k = props_eval_leaf.UNITS["C07"]
+PROPS["C07"].assumptions = [a for a in PROPS["C07"].assumptions] + [
+    "value_to_pairs: Kani leaf contracts (kinds: proof; strings / lists up to length 3: bounded; object with >= 1 key and the builtin kind: dropped, CBMC does not terminate)"]
+PROPS["C02"]._k = C06_UNITS + props_eval_leaf.UNITS["C06"][:6]
+
+PROPS["C10"] = Prop(
+    "C10", "other",
+    "Leaf contracts (Kani) on eval::eq, eval::ref_eq and the Eq/Ne/RefEq/RefNe arms of apply_binary_operation. PROOF (all payloads): identity "
+    "comparison is Some(ptr_eq) exactly for list/list, object/object, func/func and RefNe is its negation; == on null / bool / int is reflexive, symmetric, "
+    "transitive, != is its negation; differently-typed scalars and two functions are an error naming both types in operand order. BOUNDED (not counted "
+    "as proved): strings up to 2 bytes; flat integer lists up to length 2 (structural answer, symmetry, transitivity, alias-agrees-with-copy, element "
+    "type mismatch reports the types, operands unchanged and unlocked afterwards); objects with at most one key. NOT decided: nested / shared "
+    "sub-structure (the recursive comparison holds both operands' locks while descending: `a := [[]]; [a] == a` aborts on the pinned tree - found by "
+    "reading; depth-2 eq does not terminate in Kani and Verus would have to assume away the aliasing at issue).",
+    kunits=props_eval_leaf.UNITS["C10"],
+    assumptions=["lock re-entrancy of eq on shared sub-structure is not decided (known crash by reading, not reported by any check)",
+                 "objects with >= 2 keys and two distinct 1-key objects: CBMC does not terminate (dropped)"],
+    trusted_base=COMMON_TRUST,
+    not_covered=["nested values", "shared sub-structure", "objects beyond one key", "deep copies at depth > 1"],
+    ktimeout=400,
+)
